@@ -187,7 +187,10 @@ type Op struct {
 	Sub  []Op // tx body (q only)
 	Via  int  // 0 = Config.PrepareStmt handle, 1 = Session{PrepareStmt:true} handle
 	Row  bool // q: read through Row() (QueryRowContext) instead of Scan (QueryContext)
+	Back bool // tx: the block ends with an error of its own, so the transaction is rolled back
 }
+
+var errBack = errors.New("c14: block asks for rollback")
 
 // query runs the read o through h and returns the value and the error.
 func query(h *gorm.DB, o Op) (val int, err error) {
@@ -219,6 +222,9 @@ func (o Op) String() string {
 		parts := make([]string, len(o.Sub))
 		for i, s := range o.Sub {
 			parts[i] = s.String()
+		}
+		if o.Back {
+			return o.Kind + "{" + strings.Join(parts, " ") + " ROLLBACK}@" + via
 		}
 		return o.Kind + "{" + strings.Join(parts, " ") + "}@" + via
 	}
@@ -386,6 +392,7 @@ func genProgram(t *rapid.T, g int, mode string, allowClose bool) []Op {
 			o.Arg = rapid.IntRange(1, nItems).Draw(t, "arg")
 			o.Row = rapid.IntRange(0, 3).Draw(t, "row") == 0
 		case "tx", "conn":
+			o.Back = k == "tx" && rapid.IntRange(0, 3).Draw(t, "rollback") == 0
 			m := rapid.IntRange(1, 2).Draw(t, "txlen")
 			for j := 0; j < m; j++ {
 				o.Sub = append(o.Sub, Op{Kind: "q", Via: via, Row: rapid.IntRange(0, 3).Draw(t, "row") == 0,
@@ -466,8 +473,16 @@ func runCase(rt *rapid.T) {
 							r.end = ctl.tick()
 							record(r)
 						}
+						if o.Back {
+							return errBack
+						}
 						return nil
 					})
+					if o.Back && errors.Is(err, errBack) {
+						err = nil // the block's own error comes back unchanged after the rollback
+					} else if o.Back && err == nil {
+						err = errors.New("Transaction returned nil although the block returned an error")
+					}
 					record(opResult{gid: gid, op: o, start: start, end: ctl.tick(), err: err})
 				case "conn":
 					// queries on a dedicated connection (DB.Connection): same rows as anywhere else, and
@@ -760,12 +775,19 @@ func runCase(rt *rapid.T) {
 			// cache evict and close the statement all users of that text share (DESIGN.md C14 notes)
 			evicted := false
 			for _, f := range ctl.faults {
-				if f.kind == "conn-badconn" && r.op.Kind == "q" && f.text == texts[r.op.Text] {
+				if f.kind == "conn-badconn" && f.text == textOf(r) {
 					// the eviction happens somewhere inside the operation that hit the dead connection
 					fs, fe := opWindow(f.gid, f.t)
 					if overlaps(ws, we, fs, fe) || (f.t >= ws && f.t <= we) {
 						evicted = true
 					}
+				}
+			}
+			// the same eviction follows every ErrBadConn result for this text, also the fault-less ones of
+			// later members of a block whose connection is already dead
+			for _, x := range results {
+				if x.err != nil && textOf(x) != "" && textOf(x) == textOf(r) && isErr(x.err, driver.ErrBadConn) && overlaps(ws, we, x.start, x.end) {
+					evicted = true
 				}
 			}
 			if !nearCacheEvent(r) && !evicted {
@@ -814,7 +836,7 @@ func runCase(rt *rapid.T) {
 			// ... and so does every later member of a block whose connection is dead: it gets ErrBadConn for
 			// its own text without a fault of its own, and the cache evicts that text's entry as well
 			for _, r := range results {
-				if r.op.Kind == "q" && texts[r.op.Text] == a.text && r.err != nil && isErr(r.err, driver.ErrBadConn) && r.end >= lo && r.start <= hi {
+				if textOf(r) == a.text && r.err != nil && isErr(r.err, driver.ErrBadConn) && r.end >= lo && r.start <= hi {
 					boundary = true
 				}
 			}
@@ -986,10 +1008,14 @@ func firstLine(s string) string {
 	return s
 }
 
-func TestC14(t *testing.T) {
-	evid.Rule("C14: 2-4 goroutines each running <=4 operations (raw queries over three statement texts directly and inside Transaction blocks, autocommit inserts into private tables, cache Reset, cache Close) through Config.PrepareStmt and/or Session{PrepareStmt:true} handles; every pool-level PrepareContext and driver-level exec/query of a program goroutine parks and the order of releases, failing preparations (error / ErrBadConn) and dead connections are drawn by rapid; non-trivial = two requests for one text overlap a parked preparation, or a Reset/Close lands inside a preparation window, or a fault was injected; distinct = programs + number of releases")
+func c14Rule() {
+	evid.Rule("C14: 2-4 goroutines each running <=4 operations (raw queries over three statement texts read through Scan or Row(), directly, inside Transaction blocks that commit or roll back and inside Connection blocks; autocommit inserts into private tables, cache Reset, cache Close) through Config.PrepareStmt and/or Session{PrepareStmt:true} handles; every pool-level PrepareContext and driver-level exec/query of a program goroutine parks and the order of releases, failing preparations (error / ErrBadConn) and dead connections are drawn by rapid; non-trivial = two requests for one text overlap a parked preparation, or a Reset/Close lands inside a preparation window, or a fault was injected; distinct = programs + number of releases")
 	evid.Assume("liveness is judged by a bounded wait (10 s without progress and nothing parked = deadlock)")
 	evid.Assume("a goroutine is considered blocked when it neither parked nor finished for 400us; the oracle does not depend on that classification being right")
+}
+
+func TestC14(t *testing.T) {
+	c14Rule()
 	rapid.Check(t, runCase)
 }
 
@@ -1054,6 +1080,7 @@ func TestC14WitnessCloseStaleSessionHandle(t *testing.T) {
 // connection the block owns, never on the pool. Concurrent use of a bounded pool is not generated here
 // (listed finding C07 preparestmt-bounded-pool: two goroutines, one pool slot).
 func TestC14BoundedPool(t *testing.T) {
+	c14Rule()
 	rapid.Check(t, func(rt *rapid.T) {
 		mode := rapid.SampledFrom([]string{"config", "session"}).Draw(rt, "mode")
 		maxOpen := rapid.IntRange(1, 2).Draw(rt, "maxOpen")
